@@ -13,7 +13,7 @@ ENV = dict(os.environ, GOFLAGS="-mod=mod", GOPROXY="off", GOSUMDB="off", GOTOOLC
 FILES = {
     "event_matcher.go": ["C02"],
     "event_cache.go": ["C03", "C04", "C05", "C15"],
-    "message.go": ["C01", "C10", "C11"],
+    "message.go": ["C01", "C10", "C11", "C04"],
     "utils.go": ["C10", "C11", "C07"],
     "relay.go": ["C12", "C13"],
     "server.go": ["C20"],
